@@ -67,6 +67,11 @@ pub fn run() -> i32 {
     for i1 in [" ", "  ", "\u{a0}"] { for i2 in indents { for i3 in [" ", "   "] { for (b1, b2, b3) in [("alpha", "", "beta gamma"), ("alpha", "{@link T} starts", "omega"), ("mid {@link T} dle", "beta gamma", "ends {@link T}")] {
         line_sets.push(vec![mk(i1, b1), mk(i2, b2), mk(i3, b3)]);
     } } } }
+    if std::env::var("VERIF_BOUNDED_DEEP").is_ok() {
+        for i1 in indents { for b1 in bodies { if b1.is_empty() { continue; } for i2 in indents { for b2 in bodies { for i3 in indents { for b3 in bodies { if b3.is_empty() { continue; }
+            line_sets.push(vec![mk(i1, b1), mk(i2, b2), mk(i3, b3)]);
+        } } } } } }
+    }
     for lines in &line_sets {
         if lines.last().map(|l| l.is_empty()).unwrap_or(false) { continue; } // a trailing blank line: nothing to check
         let label = format!("overview lines {:?}", lines);
